@@ -14,7 +14,7 @@ P = {
                   'not a new OS process',
     'technique': 'Coq proof (induction over blocks and restart points) + lock-step differential run of a continuous and restarted real nodes',
     'drivers': [
-        {'name': 'restart', 'n': {'quick': 8, 'thorough': 300}, 'shrink_field': 'blocks', 'batch': 100, 'timeout': 3000},
+        {'name': 'restart', 'n': {'quick': 20, 'thorough': 300}, 'shrink_field': 'blocks', 'batch': 100, 'timeout': 3000},
     ],
     'coq_header': 'From HV Require Import App.RestartModel.\nFrom Coq Require Import ZArith NArith List.\nImport ListNotations.',
     'lists': {'cases': {'type': 'mem_case', 'check': 'mem_mismatches', 'shard': 40}},
